@@ -74,6 +74,7 @@ func (batch *Batch) Close() error {
 }
 
 func (batch *Batch) close() (err error) {
+	verifPoint("batch.closing")
 	conn := batch.conn
 	lock := batch.lock
 
